@@ -90,7 +90,7 @@ Definition index_raws (sp : sparams) (denc : bytes -> bytes) (st : scale) : list
   flat_map (fun '(_, sh) =>
     match close_minis sp (sort_by_key (sh_minis sh)) [] with
     | Ok (minis, _) =>
-        flat_map (fun ms => match index_bytes (ms_hdr ms) with Ok b => [b] | _ => [] end) minis
+        flat_map (fun km => match index_bytes (ms_hdr (snd km)) with Ok b => [b] | _ => [] end) minis
     | _ => []
     end) st.
 
